@@ -19,7 +19,7 @@ RULE = ("E2: breadth-first search over histories of a real Bec2File (state copie
         "WriteRead (write with the session key, read back with all decryptors, continue from the object read). Canonical state = component "
         "descriptors, comments, auth blocks. After every transition the real object must agree with the reference state: after SetConfig exactly "
         "one configuration component, last, decoding to the latest configuration, all others untouched in order; derived comments = reference "
-        "function of the latest configuration; derived auth blocks as stated; never two blocks of one kind.")
+        "function of the latest configuration; derived auth blocks as stated; never two blocks of one kind; a second, untouched file object of the same process stays empty.")
 ASSUMPTIONS = [
     "the caller keeps using the same configuration dictionaries for all operations of a history (as the appnotes do); the reference always uses pristine copies",
     "for derivation on a file that already has blocks only 'requested block present, update block as stated when both exist, one block per kind' is checked",
@@ -58,7 +58,10 @@ OPS = ([("setcfg", c) for c in "ABCD"] + [("comments", c) for c in "ABCD"]
 
 class St:
     def __init__(self):
-        self.bec = Bec2File(Bf3File({"FirmwareId": "1053"}, [Bf3Component(dict(FW["T"][0]), FW["T"][1])]), session_key=KEY)
+        # both files are created the way the appnotes do - without a comments argument; the second one is never touched
+        self.bec = Bec2File(Bf3File(components=[Bf3Component(dict(FW["T"][0]), FW["T"][1])]), session_key=KEY)
+        self.bec.bf3file.comments["FirmwareId"] = "1053"
+        self.other = Bec2File(Bf3File(), session_key=KEY)
         # reference state
         self.comps = [("fw", "T")]
         self.comments = {"FirmwareId": "1053"}
@@ -218,6 +221,11 @@ def step(st, op):
         o.viol("comments|differ", "%s: comments are %r, reference %r" % (what, st.bec.bf3file.comments, st.comments))
     if kind in ("fw", "comments", "auth"):
         check_components(st, o, what)
+    # a second, untouched file of the same process must not change
+    ob = st.other
+    if ob.bf3file.comments or ob.bf3file.components or ob.auth_blocks:
+        o.viol("isolation|other-file-changed", "%s: another, untouched file object now has comments %r / %d components / blocks %r" % (
+            what, ob.bf3file.comments, len(ob.bf3file.components), list(ob.auth_blocks)))
     return st, o
 
 
